@@ -6,6 +6,7 @@ Monitors:
            offsets 0 and k) and parse_stream of those bytes followed by trailing data advances the input stream by exactly n
 Oracle: the measured stream advance (tell delta of the traced stream); exception type for the rest.
 """
+import copy
 from ..common import tag, untag, raise_site
 from ..recipes import mk, shape
 from ..streams import TracedStream
@@ -190,6 +191,60 @@ def measure(ctx, r, d, n, kw, v, case, skip_parse):
     return True
 
 
+def poisoned(v):
+    """variants of the value whose LAST leaf cannot be built (out-of-range integer, bytes of another length, text that cannot be
+    encoded): such a build fails after the members before it have already produced bytes"""
+    path = []
+
+    def last_leaf(x, p):
+        if isinstance(x, dict):
+            for k in list(x.keys())[::-1]:
+                r = last_leaf(x[k], p + [k])
+                if r is not None:
+                    return r
+            return None
+        if isinstance(x, list):
+            for i in range(len(x) - 1, -1, -1):
+                r = last_leaf(x[i], p + [i])
+                if r is not None:
+                    return r
+            return None
+        if isinstance(x, bool) or x is None:
+            return None
+        if isinstance(x, (int, bytes, str, float)):
+            return p
+        return None
+    p = last_leaf(v, [])
+    if p is None:
+        return []
+    out = []
+    for bad in (2 ** 200, b"\x00" * 300, "\udcff" * 3, [1, 2, 3, 4, 5, 6, 7, 8, 9], -(2 ** 200)):
+        w = copy.deepcopy(v)
+        if not p:
+            out.append(bad)
+            continue
+        x = w
+        for k in p[:-1]:
+            x = x[k]
+        x[p[-1]] = bad
+        out.append(w)
+    return out
+
+
+def after_failed_builds(ctx, r, d, n, kw, v, case):
+    """calls that fail part-way on the same object (the last leaf made unbuildable in several ways) must leave nothing behind:
+    the value measured before is measured again"""
+    failed = 0
+    for w in poisoned(v):
+        try:
+            d.build(w, **kw)
+        except Exception:
+            failed += 1
+    if failed:
+        ctx.count("failed_builds_interleaved", failed)
+        measure(ctx, r, d, n, kw, v, dict(case, history="after %d builds that failed part-way on the same object" % failed), True)
+
+
 def shortened(v, depth=0):
     """the value with one list (at any depth <= 3) shortened by one element: if such a value builds at all, it must still fill the declared size"""
     out = []
@@ -261,6 +316,12 @@ def templates():
         t.append((["Struct", [["z", z], ["t", ["name", "Int16ub"]]]], {}))
         t.append((["Sequence", [[None, B], [None, z], [None, B]]], {}))
         t.append((["Array", 2, ["Struct", [["z", z], ["t", B]]]], {}))
+    # tunnels have no size of their own, whatever the inner format's size; length-prefixed structures with several members
+    for n in (0, 2):
+        t.append((["Prefixed", B, ["Compressed", X, "zlib"], False], {"n": n}))
+        t.append((["Struct", [["h", B], ["z", ["Prefixed", ["name", "Int16ub"], ["Compressed", ["Bytes", ["this", "_params", "n"]], "zlib"], False]], ["t", B]]], {"n": n}))
+        t.append((["Prefixed", B, ["Struct", [["a", ["name", "Int16ub"]], ["b", ["Bytes", ["this", "_params", "n"]]], ["c", B]]], False], {"n": n}))
+        t.append((["Struct", [["p", ["Prefixed", B, ["Struct", [["a", ["Bytes", 2]], ["b", B]]], True]], ["q", ["FixedSized", 4, ["Struct", [["a", B], ["b", ["name", "Int16ub"]]]]]], ["r", ["Padded", 5, X]]]], {"n": n}))
     # zero-width look-ahead whose inner parse succeeds, mismatches after consuming, or runs into the end of the data
     for n in (1, 2, 3):
         for pk in (["Const", tag(b"AB"), None], ["name", "Int16ub"], ["Bytes", 9], ["Struct", [["a", B], ["c", ["Const", tag(b"\x00"), None]]]], ["OneOf", B, [1, 2]], ["CString", "ascii"]):
@@ -352,12 +413,40 @@ def run(ctx):
                 v = genval(r, rng, M.top_scope(dict(kw)))
             except (M.ModelGap, M.MissingKey, M.Unsized, M.Reject):
                 break
-            okn += measure(ctx, r, d, n, kw, v, case, "ProcessXor" in kinds_in(r) and top_kind(r) != "FixedSized")
+            good = measure(ctx, r, d, n, kw, v, case, "ProcessXor" in kinds_in(r) and top_kind(r) != "FixedSized")
+            okn += good
+            if good and j < 2:
+                after_failed_builds(ctx, r, d, n, kw, v, case)
         if okn >= 2:
             ctx.nontrivial("tpl", shape(r), sorted(kw.items()))
         # the same recipe without the keys: must be SizeofError, not KeyError
         check_type(ctx, r, {}, dict(case, kw={}))
         ctx.count("templates")
+    # ---- (b1') one object sized under several keyword contexts in turn (and with the keys absent): every answer equals the answer of
+    #      a fresh object under that context - nothing an earlier call computed may be reused under another context
+    groups = {}
+    for r, kw in templates():
+        groups.setdefault(repr(r), (r, []))[1].append(kw)
+    for gi, (r, kws) in enumerate(groups.values()):
+        if not ctx.mine(gi) or len(kws) < 2:
+            continue
+        nr = ["Struct", [["h", B], ["x", r], ["t", ["Array", 2, r]]]]
+        seq = kws + kws[::-1] + [{}] + kws[:2]
+        for rr in (r, nr):
+            try:
+                obj = mk(rr)
+            except Exception:
+                continue
+            for kw in seq:
+                ctx.ev()
+                got = call_sizeof(obj, kw)
+                want = call_sizeof(mk(rr), kw)
+                if got[:2] != want[:2]:
+                    ctx.violation("sizeof-depends-on-earlier-calls:" + top_kind(r), "sizeof(%s) on an object sized before under other contexts -> %r, a fresh object -> %r (sequence %s ...)" % (kw, got[:2], want[:2], seq[:3]),
+                                  {"kind": "template-sequence", "recipe": rr, "kw": kw})
+                    break
+        ctx.count("objects_sized_under_several_contexts")
+        ctx.nontrivial("seq", shape(r), len(kws))
     # ---- (b2) grammar recipes
     nrec = ctx.pick(3000, 60000) // ctx.nworkers
     for i in range(nrec):
@@ -389,7 +478,10 @@ def run(ctx):
                 v = genval(r, rng, M.top_scope(dict(kw)))
             except (M.ModelGap, M.MissingKey, M.Unsized, M.Reject):
                 break
-            okn += measure(ctx, r, d, n, kw, v, case, bool(kinds_in(r) & {"ProcessXor", "ProcessRotateLeft"}))
+            good = measure(ctx, r, d, n, kw, v, case, bool(kinds_in(r) & {"ProcessXor", "ProcessRotateLeft"}))
+            okn += good
+            if good and j < 2:
+                after_failed_builds(ctx, r, d, n, kw, v, case)
             for v2 in shortened(v):
                 measure(ctx, r, d, n, kw, v2, dict(case, hostile="list shortened by one"), True)
         if okn >= 2 and kw:
